@@ -100,6 +100,19 @@ theorem c15_format : Gen.CheckMnemonic.fmtStr =
     "word `".toList.map Char.toNat ++ [37, 115] ++ "` at `".toList.map Char.toNat ++ [37, 100] ++
       "` not found in mnemonic mapping".toList.map Char.toNat := by decide
 
+/-- the message `fmt.Errorf` renders for the unknown-word outcome: the regenerated format with `%s`
+replaced by the token and `%d` by the decimal position -/
+def unknownMessage (tok : Str) (pos : Nat) : Str :=
+  "word `".toList.map Char.toNat ++ tok ++ "` at `".toList.map Char.toNat ++ Model.natDigits pos ++
+    "` not found in mnemonic mapping".toList.map Char.toNat
+
+/-- it names the unknown token (as a contiguous substring) -/
+theorem c15_message_names_token (tok : Str) (pos : Nat) : tok <:+: unknownMessage tok pos := by
+  unfold unknownMessage
+  exact ⟨"word `".toList.map Char.toNat, "` at `".toList.map Char.toNat ++ Model.natDigits pos ++
+    "` not found in mnemonic mapping".toList.map Char.toNat, by simp [List.append_assoc]⟩
+
+#print axioms c15_message_names_token
 #print axioms c15_count
 #print axioms c15_unknown
 #print axioms c15_checksum
